@@ -21,6 +21,16 @@ class Machinery(Exception):
     """Raised when the checking machinery itself fails (exit 2)."""
 
 
+class SpecViolation(Machinery):
+    """A specification invariant is violated on an object list GIVEN to the specification.  For lists the harness
+       constructed this is a machinery failure (default); callers that give projections of REAL models catch it and
+       report the violation of the property."""
+
+    def __init__(self, invariant, name):
+        super().__init__('Topology invariant %s violated on a given object list (%s)' % (invariant, name))
+        self.invariant = invariant
+
+
 def seed():
     try:
         return int(os.environ.get('VERIF_SEED', '0'))
